@@ -16,6 +16,7 @@ pub mod c09;
 pub mod c10;
 pub mod c11;
 pub mod c12;
+pub mod c13;
 pub mod c14;
 pub mod c15;
 pub mod c16;
@@ -56,6 +57,7 @@ pub fn dispatch(prop: &str, m: &Model, ctx: &mut Ctx, facts: Option<&Value>) -> 
         "C07" => c07::run(m, ctx),
         "C09" => c09::run(m, ctx),
         "C10" => c10::run(m, ctx),
+        "C13" => c13::run(m, ctx),
         "C14" => c14::run(m, ctx),
         "C15" => c15::run(m, ctx),
         "C17" => c17::run(m, ctx),
